@@ -27,6 +27,11 @@ type BFS struct {
 	// calls emit for every enabled operation.
 	Expand func(path []uint16, emit func(op uint16, key string))
 
+	// Start, if set, is the initial frontier (paths whose states are taken as
+	// already reached) instead of the empty path: used to shard a search over
+	// processes by its first operation(s).
+	Start [][]uint16
+
 	// results
 	States      int64
 	Transitions int64
@@ -78,6 +83,9 @@ func (b *BFS) Explore(initKey string) {
 	seen.add(hashKey(initKey))
 	b.States = 1
 	frontier := [][]uint16{{}}
+	if b.Start != nil {
+		frontier = b.Start
+	}
 	var trans atomic.Int64
 	var states atomic.Int64
 	states.Store(1)
